@@ -61,6 +61,7 @@ func run(r *mon.Run) {
 		n = 30000
 	}
 	quiet := log.New(io.Discard, "", 0)
+	sharedSigners := map[*gen.Identity]*signedexchange.Signer{}
 	for i := 0; i < n; i++ {
 		if !r.Mine(i) {
 			continue
@@ -145,6 +146,13 @@ func run(r *mon.Run) {
 		var e *signedexchange.Exchange
 		var signer *signedexchange.Signer
 		var err error
+		if i%2 == 1 {
+			// one Signer object per identity reused across exchanges (dates, URLs change between uses)
+			if sharedSigners[id] == nil {
+				sharedSigners[id] = &signedexchange.Signer{}
+			}
+			spec.Shared = sharedSigners[id]
+		}
 		p, pv := r.Call(fmt.Sprintf("build/%d", i), nil, func() { e, signer, err = spec.Build() })
 		if p || err != nil {
 			bad("SIGN-FAILED", fmt.Sprintf("signing failed: %v %v", err, pv), nil)
